@@ -642,9 +642,71 @@ func checkRelayBidCache(p *core.Prog, r *core.Report, ds *core.Describer) {
 		r.Undecide("C09.f", "blockrelay|auctionBlock", "", "anchor not found")
 		return
 	}
-	for _, ci := range core.Calls(ab, func(c *ssa.CallCommon) bool { f := c.StaticCallee(); return f != nil && f.Name() == "cacheBid" }) {
+	// the caching function, by role: the function of the package (other than the cache's reader) that puts a bid into a map
+	isBidStore := func(in ssa.Instruction) bool {
+		if mu, ok := in.(*ssa.MapUpdate); ok {
+			if pt, ok := mu.Value.Type().(*types.Pointer); ok && strings.HasSuffix(pt.Elem().String(), "VersionedSignedBuilderBid") {
+				return true
+			}
+		}
+		return false
+	}
+	var cb *ssa.Function
+	for _, f := range p.FuncsIn(relayRel) {
+		if f.Parent() != nil || f.Name() == "BuilderBid" {
+			continue
+		}
+		core.EachInstr(f, func(in ssa.Instruction) {
+			if isBidStore(in) {
+				cb = f
+			}
+		})
+	}
+	if cb != nil {
+		// the winner may be taken apart in the caching function itself (handed the auction's results): the same guard there
+		nRead := 0
+		core.EachInstr(cb, func(in ssa.Instruction) {
+			fa, ok := in.(*ssa.FieldAddr)
+			if !ok {
+				return
+			}
+			id, _, ok := core.FieldOfAddr(fa)
+			if !ok || id.Name != "Bid" || !ds.D(fa.X).HasFieldSuffix("WinningParticipation") {
+				return
+			}
+			nRead++
+			w := core.Unguarded(ds, cb, nil, func(x ssa.Instruction) bool { return x == in }, func(c core.Cond) int {
+				if c.Op != "==" && c.Op != "!=" {
+					return -1
+				}
+				var o *core.VD
+				if c.Y.Kind == "const" && c.Y.Name == "nil" {
+					o = c.X
+				} else if c.X.Kind == "const" && c.X.Name == "nil" {
+					o = c.Y
+				} else {
+					return -1
+				}
+				if !o.HasFieldSuffix("WinningParticipation") {
+					return -1
+				}
+				for s := 0; s < 2; s++ {
+					if c.RelOnEdge(s) == "!=" {
+						return s
+					}
+				}
+				return -1
+			})
+			r.Check(w == nil, "C09.f", fmt.Sprintf("blockrelay|cached-bid-guard#%d", nRead), p.Pos(in.Pos()), "the winning bid is read only when there is a winner", "the winning bid is read without testing that there is a winner", p.WitnessText(w)...)
+		})
+	}
+	for _, ci := range core.Calls(ab, func(c *ssa.CallCommon) bool { f := c.StaticCallee(); return f != nil && f == cb }) {
 		args := ci.Common().Args
 		bidArg := args[len(args)-1]
+		if !strings.HasSuffix(bidArg.Type().String(), "VersionedSignedBuilderBid") {
+			r.Hold("C09.f", "blockrelay|cached-bid", p.Pos(ci.Pos()), "the auction's results are handed to the caching function, which takes the winner apart itself")
+			continue
+		}
 		okAll := true
 		for _, lf := range core.PhiLeaves(bidArg, ci.(ssa.Instruction)) {
 			if core.IsNilConst(lf.V) {
@@ -690,26 +752,44 @@ func checkRelayBidCache(p *core.Prog, r *core.Report, ds *core.Describer) {
 	// the cache entry of an auction is always replaced by that auction's outcome: every path through cacheBid
 	// passes the store of the slot/parent/proposer entry (an earlier winner kept after a later auction without a
 	// winner would still be served to the beacon node)
-	if cb := p.Func(relayRel, "Service", "cacheBid"); cb != nil {
-		stores := effectSites(cb, func(in ssa.Instruction) bool {
-			if mu, ok := in.(*ssa.MapUpdate); ok {
-				if pt, ok := mu.Value.Type().(*types.Pointer); ok && strings.HasSuffix(pt.Elem().String(), "VersionedSignedBuilderBid") {
-					return true
-				}
-			}
-			return false
-		}, 2)
+	if cb != nil {
+		stores := effectSites(cb, isBidStore, 2)
 		if len(stores) == 0 {
 			r.Violate("C09.f", "blockrelay|cacheBid|always-stores", p.Pos(cb.Pos()), "cacheBid never stores a bid entry")
 		} else {
-			w := core.PathQuery{Fn: cb, Target: core.IsReturn, Avoid: func(in ssa.Instruction) bool {
+			q := core.PathQuery{Fn: cb, Target: core.IsReturn, Avoid: func(in ssa.Instruction) bool {
 				for _, st := range stores {
 					if in == st {
 						return true
 					}
 				}
 				return false
-			}}.Find()
+			}}
+			if cb == ab {
+				// the caching code sits in the auction function itself (a helper merged into it): what is decided is that
+				// every path after a successful auction replaces the entry
+				for _, ac := range core.Calls(ab, func(c *ssa.CallCommon) bool {
+					res := c.Signature().Results()
+					return res.Len() == 2 && strings.HasSuffix(res.At(0).Type().String(), "blockauctioneer.Results") && core.IsErrorType(res.At(1).Type())
+				}) {
+					call, ok := ac.(*ssa.Call)
+					if !ok {
+						continue
+					}
+					if errEx := core.ExtractOf(call, 1); errEx != nil {
+						est := guardEdges(ds, ab, func(c core.Cond) int { return core.ErrNilSucc(c, errEx) })
+						q.From = call
+						q.Edge = func(b *ssa.BasicBlock, succ int) bool {
+							// leave out the branch on which the auction's error is non-nil
+							if e, ok := est[b]; ok && e != succ {
+								return false
+							}
+							return true
+						}
+					}
+				}
+			}
+			w := q.Find()
 			r.Check(w == nil, "C09.f", "blockrelay|cacheBid|always-stores", p.Pos(stores[0].Pos()), "every path through cacheBid replaces the entry with this auction's outcome",
 				"cacheBid can return without replacing the entry: the outcome of an earlier auction for the same slot, parent and proposer stays in the cache and is served although the latest auction had a different (or no) winner", p.WitnessText(w)...)
 		}
